@@ -672,6 +672,9 @@ func (e *Engine) timeBefore(st *State, t, u TimeV) *Term {
 
 func (e *Engine) timeNow(st *State) TimeV {
 	c := e.tc
+	if st.clock != nil {
+		return TimeV{Inst: st.clock, Y: e.bv64(1), M: e.bv64(1), D: e.bv64(1), H: e.bv64(0), Mi: e.bv64(0), S: e.bv64(0), Ns: e.bv64(0), UTC: e.tc.False}
+	}
 	st.nowSeq++
 	name := "now"
 	if st.nowSeq > 1 {
